@@ -7,9 +7,10 @@ def load(p):
     if os.path.exists(p):
         for l in open(p):
             if l.strip():
-                r = json.loads(l); out[r["mutant"]] = r
+                r = json.loads(l); r["mutant"] = r["mutant"].split("/")[-1]; out[r["mutant"]] = r
     return out
 base = load(os.path.join(ROOT, "seeded", "RESULTS.baseline.jsonl"))
+base.update(load(os.path.join(ROOT, "seeded", "RESULTS.baseline.round2.jsonl")))
 final = load(os.path.join(ROOT, "seeded", "RESULTS.jsonl"))
 for d in sorted(os.listdir(os.path.join(ROOT, "seeded"))):
     mp = os.path.join(ROOT, "seeded", d, "meta.json")
